@@ -213,6 +213,17 @@ class Bench:
                 os.chmod(p, 0o644)
             elif how == "dangling":
                 os.symlink(os.path.join(self.root, "no-such-file"), p)
+            elif how == "badinterp":                 # executable, but its #! interpreter does not exist
+                with open(p, "w") as f:
+                    f.write("#!%s\nprint('s SATISFIABLE')\n" % os.path.join(self.root, "no-such-interpreter"))
+                os.chmod(p, 0o755)
+            elif how == "emptyexec":                 # an empty file with the x bit: neither a script nor a binary
+                open(p, "w").close()
+                os.chmod(p, 0o755)
+            elif how == "notbinary":                 # the x bit on something the kernel cannot run
+                with open(p, "wb") as f:
+                    f.write(bytes(range(1, 200)))
+                os.chmod(p, 0o755)
             else:
                 os.mkdir(p)
 
@@ -299,7 +310,7 @@ def shape_str(sh):
 
 def curated_shapes(conv):
     if conv == "fileout":
-        ans = [{}, {"per": 2}, {"per": 1, "zero": "own"}, {"zero": "absent"}, {"eol": 0, "per": 3},
+        ans = [{"replace": "rename"}, {"replace": "unlink", "per": 2}, {}, {"per": 2}, {"per": 1, "zero": "own"}, {"zero": "absent"}, {"eol": 0, "per": 3},
                {"stdout": 0, "exit": 0}, {"shuffle": 1, "per": 2, "zero": "absent"}]
     else:
         ans = [{}, {"per": 1}, {"per": 2}, {"per": 3, "comments": "inter"}, {"order": "last", "per": 2},
@@ -327,6 +338,7 @@ def random_shape(r, conv, allow_garbage=True):
               "shuffle": r.choice((0, 0, 1)), "pick": "%s:%d" % (r.choice(("lo", "hi")), r.choice((0, 0, 1, 2, 5, 11))),
               "exit": r.choice(("std", "std", 0))}
         if conv == "fileout":
+            sh["replace"] = r.choice((0, 0, "rename", "unlink"))
             sh["eol"] = r.choice((1, 1, 0))
             sh["stdout"] = r.choice((1, 1, 0))
         else:
@@ -846,7 +858,7 @@ def case_search(ctx, masks):
             broken = {}
             for n in NAMES:
                 if n not in usable and r.random() < 0.3:
-                    broken[n] = r.choice(("noexec", "dangling", "dir"))
+                    broken[n] = r.choice(("noexec", "dangling", "dir", "badinterp", "notbinary"))
             bench.install(usable, broken)
             n, cl = random_formula(r, 7)
             fm = make_formula({"label": "random", "n": n, "clauses": cl})
@@ -898,7 +910,7 @@ def case_refusals(ctx, batch):
                        tag="refuse")
                 if (k + batch) % 3 == 0:
                     bridge(ctx, bench, fms[k % len(fms)], method, "absent-tool", name, None, ans, others, tag="refuse")
-                how = ("noexec", "dangling", "dir")[(k + batch) % 3]
+                how = ("noexec", "dangling", "dir", "badinterp", "notbinary")[(k + batch) % 5]
                 bench.install(others, {name: how})
                 st, val = bridge(ctx, bench, fms[k % len(fms)], method, name, None, None, ans, others, tag="refuse-" + how)
                 if st == "exc" and type(val).__name__ == "RuntimeError":
